@@ -49,6 +49,26 @@ func VerifC06_ProtoGeneric() {
 		if !g.IsError() {
 			vrt.Assert(vrt.InBuf(g.Raw(), b), "C06.proto.getbypath.intkey.in-buffer")
 		}
+	case 5, 6:
+		// multi-step paths into the nested message, addressed by field id (5) or by field name (6)
+		f := func(id proto.FieldNumber, name string) Path {
+			if vrt.Param("OP") == 6 {
+				return NewPathFieldName(name)
+			}
+			return NewPathFieldId(id)
+		}
+		g := root.GetByPath(f(5, "sub"), f(2, "s"))
+		if !g.IsError() {
+			vrt.Assert(vrt.InBuf(g.Raw(), b), "C06.proto.getbypath.nested.in-buffer")
+		}
+		g = root.GetByPath(f(5, "sub"), f(5, "sub"), f(1, "a"))
+		if !g.IsError() {
+			vrt.Assert(vrt.InBuf(g.Raw(), b), "C06.proto.getbypath.nested2.in-buffer")
+		}
+		g = root.GetByPath(f(5, "sub"), f(6, "ss"), NewPathIndex(vrt.Int()))
+		if !g.IsError() {
+			vrt.Assert(vrt.InBuf(g.Raw(), b), "C06.proto.getbypath.nested-list.in-buffer")
+		}
 	case 3:
 		_, _ = root.Interface(&Options{})
 	case 4:
